@@ -29,7 +29,7 @@ impl builtins::Command for CallerCommand {
             .collect();
 
         // Look for the last-known location in the parent of frame N.
-        let Some(calling_frame) = frames.get(expr + 1) else {
+        let Some(calling_frame) = expr.checked_add(1).and_then(|index| frames.get(index)) else {
             return Ok(ExecutionResult::general_error());
         };
 
